@@ -18,8 +18,11 @@
 From Mage Require Import Base.Strs Base.Expand Model.Slices Proof.Slices_facts.
 
 Section W.
-Variable child_out : list string -> string.     (* the child's stdout as a function of its argv: external *)
-Variable child_exit : list string -> nat.       (* the child's exit status as a function of its argv: external *)
+(* external: the operating system and the child, as functions of the process environment at the time of the
+   call and of the argv handed over (which program the command word names - PATH, the file system of that
+   moment -, what it prints, how it exits; not started: "" and 1) *)
+Variable child_out : list (string * string) -> list string -> string.
+Variable child_exit : list (string * string) -> list string -> nat.
 Variable h0 : heap.
 Variable cls0 : list closure.                   (* closures that exist before the history (may be none) *)
 Hypothesis closures_in_heap : cls_ok h0 cls0.
@@ -34,7 +37,9 @@ Proof. exact (fun penv ops => thm_inputs_unchanged child_out child_exit h0 penv 
 (* The call of a closure at ANY position of ANY history (first or later; whatever ran before - failing
    calls that printed included; with or without extra arguments; the closure made at any earlier point,
    under whatever environment) starts exactly cmd, the baked-in arguments, then the call's arguments, each
-   expanded against the environment at the time of THAT call.  An OutCmd closure hands back THIS child's
+   expanded against the environment at the time of THAT call - the COMMAND WORD too, and the program it
+   names is the one the operating system finds for it in the environment of THAT call ([child_out env_i],
+   [child_exit env_i]: PATH and the file system of that moment, nothing remembered from earlier calls).  An OutCmd closure hands back THIS child's
    stdout with one trailing newline removed (nothing of earlier calls) and writes nothing to os.Stdout; a
    RunCmd closure hands back nothing and the child's stdout reaches os.Stdout exactly when mg.Verbose()
    holds in the environment of THAT call (not of the closure's creation).  The status is this child's. *)
@@ -44,9 +49,9 @@ Theorem C16_closure_is_run : forall penv pre c extra post cl,
   let argv := map (expand_env env_i) (cl_cmd cl :: contents h0 (cl_baked cl) ++ contents h0 extra) in
   exists h', nth_error (run_history child_out child_exit true penv cls0 h0 (pre ++ CallClosure c extra :: post)) (length pre)
              = Some (OCall argv
-                           (match cl_kind cl with KRun => None | KOut => Some (trim_nl (child_out argv)) end)
-                           (match cl_kind cl with KRun => if verbose env_i then child_out argv else "" | KOut => "" end)
-                           (child_exit argv), h').
+                           (match cl_kind cl with KRun => None | KOut => Some (trim_nl (child_out env_i argv)) end)
+                           (match cl_kind cl with KRun => if verbose env_i then child_out env_i argv else "" | KOut => "" end)
+                           (child_exit env_i argv), h').
 Proof. exact (fun penv pre c extra post cl => thm_closure_is_run child_out child_exit h0 penv cls0 pre c extra post cl closures_in_heap). Qed.
 
 (* The direct functions, at any position of any history: cmd and the caller's elements, expanded with the
@@ -102,7 +107,7 @@ Theorem C16_closure_is_run_before_repair_refuted : forall child_out child_exit,
   exists h0 penv pre c extra post,
     Forall (op_ok h0) (pre ++ CallClosure c extra :: post) /\
     exists ob h', nth_error (run_history child_out child_exit false penv [] h0 (pre ++ CallClosure c extra :: post)) (length pre) = Some (ob, h') /\
-                  ob = OCall ["echo"; "one"] (Some (trim_nl (child_out ["echo"; "one"]))) "" (child_exit ["echo"; "one"]) /\
+                  ob = OCall ["echo"; "one"] (Some (trim_nl (child_out (env_at penv pre) ["echo"; "one"]))) "" (child_exit (env_at penv pre) ["echo"; "one"]) /\
                   spec_argv h0 (cls_at [] pre) (env_at penv pre) (CallClosure c extra) = ["echo"; "two"] /\
                   firstn (length h0) h' <> h0.
 Proof. exact thm_closure_is_run_before_repair_refuted. Qed.
